@@ -1649,7 +1649,7 @@ fn class_desc(n: usize, dm: u32, da: u32) -> AirDesc {
 
 /// every ordered pair (blowup class of the main constraints, blowup class of the auxiliary
 /// constraints) for constraint-evaluation blowups 2, 4, 8, 16: aux above, equal to and below main, with
-/// the degrees on both edges of each class (2|3, 4|5, 6|9, 10|17); the domain comes from the real
+/// the degrees on both edges of each class (2|3, 4|5, 6|9, 10|17), over 8 and 16 rows; the domain comes from the real
 /// `AirContext` through `StarkDomain::new(&air)`, the LDE blowup is the larger class (and above it)
 fn blowup_class_ops(rng: &mut Rng, tier: Tier, emit: &mut dyn FnMut(String)) {
     let classes: [(usize, u32, u32); 4] = [(2, 2, 3), (4, 4, 5), (8, 6, 9), (16, 10, 17)];
@@ -1657,9 +1657,7 @@ fn blowup_class_ops(rng: &mut Rng, tier: Tier, emit: &mut dyn FnMut(String)) {
     for (cm, mlo, mhi) in classes {
         for (ca, alo, ahi) in classes {
             let field = FieldId::ALL[i % FieldId::ALL.len()];
-            // (degree 10 over 8 rows needs only 64 of the 128 points: the prover's debug check of the
-            // evaluation domain size rejects it, so the largest class runs over 16 and 32 rows)
-            let n = if cm.max(ca) == 16 { if i % 2 == 0 { 16 } else { 32 } } else if i % 2 == 0 { 8 } else { 16 };
+            let n = if i % 2 == 0 { 8 } else { 16 };
             let (dm, da) = match i % 4 {
                 0 => (mlo, alo),
                 1 => (mhi, ahi),
@@ -1685,6 +1683,32 @@ fn blowup_class_ops(rng: &mut Rng, tier: Tier, emit: &mut dyn FnMut(String)) {
                 emit(format!("ood {} {} {} {}", field.name(), OptSpec::new(4, ceb.max(4), 0, ext, 4, 7).to_text(), rng.below(1000), d.to_line()));
             }
             i += 1;
+        }
+    }
+    // ---- short traces whose blowup estimate rounds up: `min_blowup_factor = next_power_of_two(d - 1)` is
+    // twice what the degree needs when (d-1)(n-1) <= n*next_power_of_two(d-1)/2 (d - 1 not a power of two:
+    // d = 10 over 8 rows, d = 18 over 8 and 16 rows, d = 19 over 8 rows) - the constraint evaluation
+    // domain is then larger than the highest degree requires (finding c17.panic, repaired by 21f82da: the
+    // prover's debug check demanded equality).  The degree sits on the main segment, on the auxiliary
+    // segment, and on both; the neighbouring degrees are run too.
+    let mut j = 0usize;
+    for (d, ns) in [(10u32, &[8usize][..]), (11, &[8]), (13, &[8]), (16, &[8]), (18, &[8, 16]), (19, &[8, 16]), (20, &[8]), (25, &[8, 16]), (32, &[8, 16])] {
+        for n in ns.iter().copied() {
+            for (dm, da) in [(d, 2u32), (2, d), (d, d)] {
+                let field = FieldId::ALL[j % FieldId::ALL.len()];
+                let desc = class_desc(n, dm, da);
+                let ceb = desc.min_blowup();
+                // thorough: every placement; quick: every placement for the degrees that round up
+                let rounds_up = ((d - 1) as usize) * (n - 1) <= n * ceb / 2;
+                if rounds_up || tier == Tier::Thorough || j % 3 == 0 {
+                    let ext = if ceb >= 32 { 1 } else { *rng.pick(&exts(field)) };
+                    emit(def_line(field, ext, ceb, &format!("s{}.3", rng.below(1000)), &desc));
+                    if rounds_up && ceb <= 16 {
+                        emit(format!("ood {} {} {} {}", field.name(), OptSpec::new(4, ceb, 0, 1, 4, 7).to_text(), rng.below(1000), desc.to_line()));
+                    }
+                }
+                j += 1;
+            }
         }
     }
 }
